@@ -51,6 +51,7 @@ theorem order_as_modelled :
     Token.recoverBranches = ["miss:resolve_call_from_token", "miss:cache_put", "hit:method_check", "hit:hit_type_check"] ∧
     Token.resolveCallOrder = ["missing_check", "open_call", "pairing_check", "read_schema", "read_schema",
       "deserialize_call_state"] ∧
+    Token.cacheGetExpires = true ∧ Token.cacheGetRefreshes = false ∧ Token.cacheAgesFromToken = true ∧
     Token.ttlShapeRecognised = true ∧ Token.b64Validate = true ∧ Token.headerLen = Token.lenFmtWidth ∧
     Token.timestampLen = Token.tsFmtWidth ∧ Token.cursorSegments = 1 ∧ Token.callSegments = 5 ∧
     Token.minCursorPlaintextLen = Token.timestampLen + Token.callIdLen + Token.headerLen * Token.cursorSegments ∧
@@ -100,7 +101,7 @@ theorem frame_roundtrip_cursor (strict : Bool) (E : Wire) (z : Zstd) (hE : E.Law
 theorem frame_roundtrip_call (sh : Shape) (E : Wire) (z : Zstd) (hE : E.Lawful) (hz : z.Lawful) (key : KeyId)
     (km : CallMint) (hwf : km.WF) (ttl : Nat) (now : Int) (hf : Fresh ttl now km.t) :
     openCallObs sh.strictB64 z key (callAad sh.methodBound km.method km.who) ttl now
-      (E.observe (E.enc (km.tok sh z key))) = .ok (km.callId, km.body) := by
+      (E.observe (E.enc (km.tok sh z key))) = .ok (km.callId, km.body, km.t) := by
   obtain ⟨w1, w2, w3, _, _⟩ := hwf
   rw [Aux.observe_enc hE]
   unfold openCallObs decodeObs CallMint.tok
@@ -111,6 +112,7 @@ theorem frame_roundtrip_call (sh : Shape) (E : Wire) (z : Zstd) (hE : E.Lawful) 
   simp only
   unfold packCallPlain
   rw [callTtlCheck_packed _ _ _ _ w2, if_neg (Aux.not_expired_of_fresh hf)]
+  simp only [createdAtOf_packed _ _ w2]
 
 /-- an expired minted token is rejected (TTL edge: age `ttl` is served, age `ttl + 1` is not) -/
 theorem expired_rejected (strict : Bool) (E : Wire) (z : Zstd) (hE : E.Lawful) (hz : z.Lawful) (key : KeyId)
@@ -210,11 +212,11 @@ theorem C12_unforgeable {E : Wire} {z : Zstd} {D : Decoders} {srv : Server} {key
       S.cursorFresh⟩
   · intro hmiss
     have hh : acc.hit = false := by simpa using hmiss
-    obtain ⟨cw, hc, _, ht, hf⟩ := S.miss hh
+    obtain ⟨_, cw, hc, _, ht⟩ := S.miss hh
     exact ⟨cw, hc, specCall Shape.extracted E z srv.key km, List.mem_map.mpr ⟨km, hkm, rfl⟩, (ht rfl).symm, rfl,
-      S.callWho, S.callId, hf⟩
+      S.callWho, S.callId, S.callFresh⟩
   · intro _
-    exact ⟨specCall Shape.extracted E z srv.key km, List.mem_map.mpr ⟨km, hkm, rfl⟩, rfl, S.callWho, S.callId⟩
+    exact ⟨specCall Shape.extracted E z srv.key km, List.mem_map.mpr ⟨km, hkm, rfl⟩, rfl, S.callWho, S.callId, S.callFresh⟩
 
 /-- corollary (identity binding): tokens minted for another identity are never accepted -/
 theorem C12_cross_identity_rejected {E : Wire} {z : Zstd} {D : Decoders} {srv : Server} {keys : List KeyId} {W : World}
@@ -237,8 +239,8 @@ theorem C12_order (sh : Shape) (E : Wire) (z : Zstd) (D : Decoders) (srv : Serve
     (effs : List Effect) (res : Res Accepted)
     (h : recover sh E z D srv cache r = (effs, res)) (hrej : (∃ x, res = .reject x) ∨ res = .missingCall) :
     effs = [] := by
-  have fin : ∀ st cid e hit effs0, finishRecover D st cid e hit effs0 = (effs, res) → False := by
-    intro st cid e hit effs0 hf
+  have fin : ∀ st cid e hit cr effs0, finishRecover D st cid e hit cr effs0 = (effs, res) → False := by
+    intro st cid e hit cr effs0 hf
     unfold finishRecover at hf
     simp only [Prod.mk.injEq] at hf
     obtain ⟨_, h2⟩ := hf
@@ -250,18 +252,18 @@ theorem C12_order (sh : Shape) (E : Wire) (z : Zstd) (D : Decoders) (srv : Serve
   | ok x =>
     obtain ⟨st, cid⟩ := x
     rw [hc] at h; simp only at h
-    cases hl : cache cid (cacheIdent (r.observe E).who) with
+    cases hl : cache.get cid (cacheIdent (r.observe E).who) (r.observe E).now with
     | some e =>
       rw [hl] at h; simp only at h
       split at h
       · simp only [Prod.mk.injEq] at h; exact h.1.symm
       · split at h
         · simp only [Prod.mk.injEq] at h; exact h.1.symm
-        · exact (fin _ _ _ _ _ h).elim
+        · exact (fin _ _ _ _ _ _ h).elim
     | none =>
       rw [hl] at h; simp only at h
       cases hr : resolveCallFromToken sh z D srv (r.observe E) cid with
-      | ok e => rw [hr] at h; simp only at h; exact (fin _ _ _ _ _ h).elim
+      | ok e => rw [hr] at h; simp only at h; exact (fin _ _ _ _ _ _ h).elim
       | reject _ => rw [hr] at h; simp only [Prod.mk.injEq] at h; exact h.1.symm
       | missingCall => rw [hr] at h; simp only [Prod.mk.injEq] at h; exact h.1.symm
       | decodeError => rw [hr] at h; simp only [Prod.mk.injEq] at h; exact h.1.symm
@@ -303,14 +305,15 @@ def D : Decoders := ⟨fun _ => true, fun _ => true, fun _ => true⟩
 def srv : Server := ⟨1, 3600⟩
 def W : World :=
   { cursors := [cm] ++ World.empty.cursors, calls := km :: World.empty.calls,
-    caches := (setCache World.empty 0 ((World.empty.caches 0).put km.callId (cacheIdent km.who) ⟨km.method, km.body⟩)).caches }
+    caches := (setCache World.empty 0 ((World.empty.caches 0).put km.callId (cacheIdent km.who)
+      (cacheDeadline srv.ttl km.t 100, ⟨km.method, km.body⟩))).caches }
 def req : Req := ⟨.anonymous, "gen".toList, 150, [65], none⟩
-def acc : Accepted := ⟨[9, 9], List.replicate 16 7, ⟨"gen".toList, body⟩, true⟩
+def acc : Accepted := ⟨[9, 9], List.replicate 16 7, ⟨"gen".toList, body⟩, true, 0⟩
 
 theorem lawful : z.Lawful := fun _ => rfl
 
 theorem reachable : Reachable Shape.extracted E z D srv [] W := by
-  refine Reachable.step Reachable.start (Step.init World.empty 0 km (some (100, [9, 9], 1)) ?_ ?_ ?_)
+  refine Reachable.step Reachable.start (Step.init World.empty 0 km (some (100, [9, 9], 1)) 100 ?_ ?_ ?_)
   · have f : ∀ b : Bytes, b.length < 10 → fitsLen b := fun b h => by unfold fitsLen; tok_consts; omega
     refine ⟨by decide, by decide, ⟨f _ (by decide), f _ (by decide), f _ (by decide), f _ (by decide), f _ (by decide)⟩, trivial, ?_⟩
     exact nulFree_of_chars (by decide)
